@@ -56,7 +56,7 @@ structure Proc where
   me : Participant
   current : Option DBState := none
   finished : Option DBState := none
-  seen : List String := []
+  seen : List (Bytes × List Seg) := []   -- `SeenPackets`: signatures are deterministic and unique, so a signature is identified by (key, message)
   executing : Bool := false     -- an entry in `Executions`
   deriving Repr
 
@@ -93,10 +93,16 @@ inductive Out where
   | savedThenErr (e : String)   -- the state was written, then a later step failed
   deriving Repr
 
-/-- `Process.Packet` for the five control packets (`setupOK`: whether `setupDKG` succeeds, an environment fact) -/
-def Proc.packet (p : Proc) (m : Meta) (pk : Packet) (now : Int) (setupOK : Bool := true) : Proc × Out :=
+/-- whether `setupDKG` succeeds for the state just saved: every participant key must decode (`util.ToNode`) and
+there must be somebody to broadcast to -/
+def setupOK (next : DBState) : Bool :=
+  let ps := next.remaining ++ next.joining
+  ps.all (·.keyOK) && !ps.isEmpty
+
+/-- `Process.Packet` for the five control packets -/
+def Proc.packet (p : Proc) (m : Meta) (pk : Packet) (now : Int) : Proc × Out :=
   if m.sigId.length < 8 then (p, .err (.other "sig-too-short"))
-  else if p.seen.contains m.sigId then (p, .dup)
+  else if p.seen.contains (m.sigKey, m.sigMsg) then (p, .dup)
   else
     match applyPacket p.base p.me pk m.addr now with
     | .error e => (p, .err e)
@@ -105,34 +111,75 @@ def Proc.packet (p : Proc) (m : Meta) (pk : Packet) (now : Int) (setupOK : Bool 
       | .error e => (p, .err e)
       | .ok () =>
         let rec' := gossipRecipients p.me (next.joining ++ next.remaining ++ next.leaving)
-        let p' := { p with current := some next, seen := if rec'.isEmpty then p.seen else m.sigId :: p.seen }
+        let p' := { p with current := some next, seen := if rec'.isEmpty then p.seen else (m.sigKey, m.sigMsg) :: p.seen }
         match pk with
-        | .execute _ => if setupOK then ({ p' with executing := true }, .ok) else (p', .savedThenErr "setup")
+        | .execute _ => if setupOK next then ({ p' with executing := true }, .ok) else (p', .savedThenErr "setup")
         | _ => (p', .ok)
 
+/-- `drand.FirstProposalOptions` -/
+structure InitOpts where
+  threshold : Nat
+  timeout : Int
+  genesisTime : Int
+  schemeID : String
+  catchupSec : Nat
+  periodSec : Nat
+  joining : List Participant
+  deriving Repr
+
+/-- `drand.ProposalOptions` -/
+structure ReshareOpts where
+  threshold : Nat
+  timeout : Int
+  catchupSec : Nat
+  joining : List Participant
+  remaining : List Participant
+  leaving : List Participant
+  deriving Repr
+
+/-- the terms `StartNetwork` builds -/
+def initialTerms (beaconID : String) (me : Participant) (o : InitOpts) : Terms :=
+  { beaconID, threshold := o.threshold, epoch := 1, timeout := o.timeout, leader := me, schemeID := o.schemeID,
+    genesisTime := o.genesisTime, genesisSeed := [], catchupSec := o.catchupSec, periodSec := o.periodSec,
+    joining := nonEmpty o.joining, remaining := [], leaving := [] }
+
+/-- the terms `StartProposal` builds from the state the command is applied to -/
+def reshareTerms (beaconID : String) (me : Participant) (cur : DBState) (o : ReshareOpts) : Terms :=
+  { beaconID, threshold := o.threshold, epoch := cur.epoch + 1, schemeID := cur.schemeID, periodSec := cur.periodSec,
+    catchupSec := o.catchupSec, genesisTime := cur.genesisTime, genesisSeed := cur.genesisSeed, timeout := o.timeout,
+    leader := me, joining := o.joining, remaining := o.remaining, leaving := o.leaving }
+
 inductive Cmd where
-  | initial (t : Terms)          -- terms as `StartNetwork` builds them
-  | resharing (t : Terms)        -- terms as `StartProposal` builds them
+  | initial (o : InitOpts)
+  | resharing (o : ReshareOpts)
   | join (prev : Option GroupLite)
   | accept | reject | execute | abort
   deriving Repr
 
 /-- `Process.Command` (the v1→v2 key-migration branch of StartProposal is excluded) -/
-def Proc.command (p : Proc) (c : Cmd) (now : Int) (setupOK : Bool := true) : Proc × Out :=
+def Proc.command (p : Proc) (c : Cmd) (now : Int) : Proc × Out :=
   let cur := p.base
   let me := p.me
-  let finish (next : DBState) (gossipTo : List Participant) (blocking : Bool) : Proc × Out :=
-    let p' := { p with current := some next }
-    if blocking && (gossipRecipients me gossipTo).isEmpty then (p', .savedThenErr "gossip-empty") else (p', .ok)
+  -- after a successful command the packet is signed over the new state's terms and gossiped to joiners+remainers
+  -- and (separately) to leavers; `gossip` records the signature as seen whenever it has a recipient
+  let finish (next : DBState) (pk : Option Packet) (blocking : Bool) : Proc × Out :=
+    let main := gossipRecipients me (next.joining ++ next.remaining)
+    let lv := gossipRecipients me next.leaving
+    let seen' := match pk with
+      | some pk => if main.isEmpty && lv.isEmpty then p.seen
+                   else (me.key, messageForSigning p.beaconID pk (termsFromState next)) :: p.seen
+      | none => p.seen
+    let p' := { p with current := some next, seen := seen' }
+    if blocking && main.isEmpty then (p', .savedThenErr "gossip-empty") else (p', .ok)
   match c with
-  | .initial t =>
-    match cur.proposing me t now with
+  | .initial o =>
+    match cur.proposing me (initialTerms p.beaconID me o) now with
     | .error e => (p, .err e)
-    | .ok n => finish n (n.joining ++ n.remaining) true
-  | .resharing t =>
-    match cur.proposing me t now with
+    | .ok n => finish n (some (.proposal (initialTerms p.beaconID me o))) true
+  | .resharing o =>
+    match cur.proposing me (reshareTerms p.beaconID me cur o) now with
     | .error e => (p, .err e)
-    | .ok n => finish n (n.joining ++ n.remaining) true
+    | .ok n => finish n (some (.proposal (reshareTerms p.beaconID me cur o))) true
   | .join prev =>
     if cur.epoch > 1 && prev.isNone then (p, .err (.other "group-file-required")) else
     match cur.joined me (if cur.epoch > 1 then prev else none) now with
@@ -141,25 +188,22 @@ def Proc.command (p : Proc) (c : Cmd) (now : Int) (setupOK : Bool := true) : Pro
   | .accept =>
     match cur.accepted me now with
     | .error e => (p, .err e)
-    | .ok n => finish n [] false
+    | .ok n => finish n (some (.accept me)) false
   | .reject =>
     match cur.rejected me now with
     | .error e => (p, .err e)
-    | .ok n => finish n [] false
+    | .ok n => finish n (some (.reject me)) false
   | .execute =>
     match cur.startExecuting me now with
     | .error e => (p, .err e)
     | .ok n =>
       let p' := { p with current := some n }
-      if n.state == .executing then
-        if setupOK then ({ p' with executing := true }, .ok) else (p', .savedThenErr "setup")
-      else
-        -- a leaver running `execute` ends in Left, but executeDKG is still attempted
-        if setupOK then ({ p' with executing := true }, .ok) else (p', .savedThenErr "setup")
+      -- (a leaver running `execute` ends in Left; executeDKG is attempted all the same)
+      if setupOK n then ({ p' with executing := true }, .ok) else (p', .savedThenErr "setup")
   | .abort =>
     match cur.startAbort with
     | .error e => (p, .err e)
-    | .ok n => finish n [] false
+    | .ok n => finish n (some (.abort "none")) false
 
 /-- the two endings of `executeAndFinishDKG` -/
 def Proc.completeDKG (p : Proc) (g : Option GroupLite) (share : Option Nat) (now : Int) : Proc × Out :=
@@ -173,15 +217,15 @@ def Proc.failDKG (p : Proc) : Proc × Out :=
   | .ok n => ({ p with current := some n }, .ok)
 
 inductive Ev where
-  | cmd (c : Cmd) (setupOK : Bool)
-  | pkt (m : Meta) (pk : Packet) (setupOK : Bool)
+  | cmd (c : Cmd)
+  | pkt (m : Meta) (pk : Packet)
   | complete (g : Option GroupLite) (share : Option Nat)
   | fail
   deriving Repr
 
 def Proc.step (p : Proc) (now : Int) : Ev → Proc × Out
-  | .cmd c s => p.command c now s
-  | .pkt m pk s => p.packet m pk now s
+  | .cmd c => p.command c now
+  | .pkt m pk => p.packet m pk now
   | .complete g sh => p.completeDKG g sh now
   | .fail => p.failDKG
 
